@@ -304,6 +304,48 @@ def run(ctx):
                                           % (method, list(gaps), ", with M" if withM else "", why),
                                           {"gaps": list(gaps), "method": method, "M": withM, "order": list(order), "G": G.tolist(),
                                            "A": [a_.tolist() for a_, _ in elems], "Mm": [m_.tolist() if m_ is not None else None for _, m_ in elems]})
+        # ---- operators that depend non-linearly on their own parameter tensor (second order needs the explicit d2A/dp2 term)
+        from props.c02 import NonlinOp
+        for method in ("custom_exacteig", "davidson"):
+            for withM in (False, True):
+                ntab += 1
+                ctx.case(key=("nonlinear-op", method, withM))
+                n, neig = 5, 2
+                S0, _ = build(n, spectrum_for((False,), n), False, g)
+                M0 = None
+                pl = (torch.randn(n, generator=g, dtype=DT) * 0.3).requires_grad_()
+                ql = (torch.randn(n, generator=g, dtype=DT) * 0.2).requires_grad_() if withM else None
+                if withM:
+                    Qm, _ = torch.linalg.qr(torch.randn(n, n, generator=g, dtype=DT))
+                    M0 = (Qm * torch.linspace(0.8, 1.4, n, dtype=DT)) @ Qm.T
+                G = sym(torch.randn(n, n, generator=g, dtype=DT))
+                blocks = [[0], [1]]
+                why = None
+                try:
+                    A = NonlinOp(S0, pl, torch.exp)
+                    M = NonlinOp(M0, ql, lambda q_: q_ ** 2) if withM else None
+                    ev, evec = xitorch.linalg.symeig(A, neig=neig, mode="lowest", M=M, method=method, **({"min_eps": 1e-12} if method == "davidson" else {}))
+                    leaves = [pl] + ([ql] if withM else [])
+                    L = loss_fn(ev, evec, blocks, G, None)
+                    Ld = dense_loss(S0 + torch.diag(torch.exp(pl)), (M0 + torch.diag(ql ** 2)) if withM else None, neig, blocks, G)
+                    g1 = torch.autograd.grad(L, leaves, create_graph=True)
+                    r1 = torch.autograd.grad(Ld, leaves, create_graph=True)
+                    tol = 1e-6 if method != "davidson" else 1e-4
+                    for a, b in zip(g1, r1):
+                        if not torch.allclose(a, b, atol=tol, rtol=tol):
+                            why = "first-order gradient differs from the dense reference by %.2e" % float((a - b).abs().max())
+                    if why is None:
+                        cw = [torch.cos(torch.arange(x.numel(), dtype=DT)) for x in leaves]
+                        h1 = torch.autograd.grad(sum((a * c_).sum() for a, c_ in zip(g1, cw)), leaves, allow_unused=True)
+                        h2 = torch.autograd.grad(sum((a * c_).sum() for a, c_ in zip(r1, cw)), leaves, allow_unused=True)
+                        for a, b in zip(h1, h2):
+                            a = torch.zeros_like(b) if a is None else a
+                            if not torch.allclose(a, b, atol=100 * tol, rtol=100 * tol):
+                                why = "second-order gradient differs from the dense reference by %.2e" % float((a - b).abs().max())
+                except Exception as e:
+                    why = "raised %s: %s" % (type(e).__name__, str(e)[:140])
+                if why:
+                    ctx.violation("eiggrad/nonlinear-operator/%s" % method, "symeig(%s) of S + diag(exp(p))%s: %s" % (method, " with M0 + diag(q^2)" if withM else "", why), {"method": method, "M": withM})
         # ---- svd: singular values and rank-one terms
         for (m_, n_) in ((4, 3), (3, 5), (4, 4)):
             for k in (1, 2):
